@@ -401,3 +401,7 @@ mod tests {
         assert!(config.exclude_untrusted);
     }
 }
+
+#[cfg(kani)]
+#[path = "/verif/kani/trust_peer_selector_proofs.rs"]
+mod verif_proofs;
